@@ -162,6 +162,10 @@ impl<'a> Index<'a> {
             }
             PRef::Local(l) => {
                 let lo = &self.h.locals[l];
+                if lo.via == "eop" {
+                    // enter_on_poll spans share their name across polls
+                    return None;
+                }
                 if let Some(rs) = self.by_name.get(lo.name.as_str()) {
                     let ids: HashSet<u64> = rs.iter().map(|r| r.1.span_id.0).collect();
                     if ids.len() == 1 {
@@ -1018,6 +1022,7 @@ pub fn c11(ix: &Index) -> Vec<Viol> {
                 // span id: the delivered record of that span, matched by name
                 let want = match e.who {
                     PRef::Span(s) => ix.by_name.get(h.spans[s].name.as_str()).map(|r| r[0].1.span_id.0),
+                    PRef::Local(l) if h.locals[l].via == "eop" => None,
                     PRef::Local(l) => {
                         let rs = ix.by_name.get(h.locals[l].name.as_str());
                         rs.and_then(|rs| {
@@ -2093,5 +2098,209 @@ pub fn c09(ix: &Index) -> Vec<Viol> {
             }
         }
     }
+    out
+}
+
+// ---------------------------------------------------------------------------------------------
+// C13 / C14: adapters
+// ---------------------------------------------------------------------------------------------
+pub fn c13(ix: &Index, prop: &'static str, sched: bool) -> Vec<Viol> {
+    use crate::prog::{AdapterKind, Entry, PollEnd};
+    let mut out = Vec::new();
+    let h = ix.h;
+    // local context restored after every call: the frame condition over the probes
+    out.extend(c10(ix).into_iter().map(|mut x| {
+        x.prop = prop;
+        x.sig = format!("context:{}", x.sig);
+        x
+    }));
+    // local parent during every call (contexts observed inside the calls)
+    out.extend(c11(ix).into_iter().filter(|x| x.sig.starts_with("current_local_parent")).map(|mut x| {
+        x.prop = prop;
+        x.sig = format!("inside-call:{}", x.sig);
+        x
+    }));
+    for p in &h.panics {
+        out.push(v(prop, format!("panic:{}", p.op), format!("{} panicked: {}", p.op, p.msg)));
+    }
+    for (ai, a) in h.adapters.iter().enumerate() {
+        let want_kinds: &[AdapterKind] = if prop == "C13" {
+            &[AdapterKind::InSpan, AdapterKind::EnterOnPoll, AdapterKind::InSpanEnterOnPoll]
+        } else {
+            &[AdapterKind::Stream, AdapterKind::Sink]
+        };
+        if !want_kinds.contains(&a.kind) {
+            continue;
+        }
+        let in_span = a.kind != AdapterKind::EnterOnPoll;
+        // inside each call the span is the local parent
+        if let (true, Some(si)) = (in_span, a.span) {
+            let sp = &h.spans[si];
+            let mut done = false;
+            for (pi, pl) in a.polls.iter().enumerate() {
+                if pl.inside_panicked {
+                    continue;
+                }
+                let first = pl.inside_clp.first().cloned().flatten();
+                if !sp.noop && !done {
+                    // innermost: the eop local if there is one, else the span
+                    match first {
+                        None => out.push(v(
+                            prop,
+                            format!("no-local-parent-inside:{:?}", pl.entry),
+                            format!("adapter#{} call#{} ({:?}): no local parent inside the call although the adapter holds span {:?}", ai, pi, pl.entry, sp.name),
+                        )),
+                        Some((t, id, smp)) => {
+                            if t != sp.items[0].trace || smp != sp.items[0].sampled {
+                                out.push(v(prop, format!("wrong-local-parent-inside:{:?}", pl.entry), format!("adapter#{} call#{}: local parent inside the call is trace {:#x} sampled={}, expected the span's", ai, pi, t, smp)));
+                            }
+                            if pl.eop_local.is_none() {
+                                if let Some(rs) = ix.by_name.get(sp.name.as_str()) {
+                                    if rs[0].1.span_id.0 != id {
+                                        out.push(v(prop, format!("wrong-local-parent-inside:{:?}", pl.entry), format!("adapter#{} call#{}: local parent inside the call has span id {:#x}, the wrapped span's record has {:#x}", ai, pi, id, rs[0].1.span_id.0)));
+                                    }
+                                }
+                            }
+                        }
+                    }
+                }
+                if pl.finishing || pl.close_err {
+                    done = true;
+                }
+            }
+            // the span finishes exactly at the finishing call / at the drop
+            if !sp.noop && sp.items.iter().any(|i| i.sampled) {
+                let uncertain = a.polls.iter().any(|p| p.close_err);
+                if let (Some(fin), Some(rs)) = (sp.finish_t, ix.by_name.get(sp.name.as_str())) {
+                    for (bi, r) in rs {
+                        let b = &h.batches[*bi];
+                        // not earlier: a cycle that completed before the finishing call began
+                        // (for close->Err: before that call began) must not deliver it
+                        let earliest = if uncertain { a.polls.iter().find(|p| p.close_err).map(|p| p.t.0).unwrap_or(fin.0) } else { fin.0 };
+                        if b.t < earliest {
+                            out.push(v(
+                                prop,
+                                "span-finished-early",
+                                format!("adapter#{}: span {:?} was delivered at t={} before the completing call / drop began (t={})", ai, sp.name, b.t, earliest),
+                            ));
+                        }
+                        // not later (default config; cancelable is bound to the root's finish)
+                        if !h.cancelable && !sched {
+                            if let Some((_, dl)) = ix.first_cycle_after(fin.1) {
+                                if b.t > dl {
+                                    out.push(v(prop, "span-finished-late", format!("adapter#{}: span {:?} finished at t={:?} but was delivered only at t={}", ai, sp.name, fin, b.t)));
+                                }
+                            }
+                        }
+                        // duration ends inside the bracket of the finishing call / drop
+                        if sp.br.f1 != 0 && sp.br.c1 != 0 && !uncertain {
+                            let lo = sp.br.f0.saturating_sub(sp.br.c1);
+                            let hi = sp.br.f1.saturating_sub(sp.br.c0);
+                            if r.duration_ns + 5 < lo || r.duration_ns > hi + 5 {
+                                out.push(v(prop, "span-end-outside-final-call", format!("adapter#{}: span {:?} duration {} ns, bracket of the completing call [{}, {}]", ai, sp.name, r.duration_ns, lo, hi)));
+                            }
+                        }
+                    }
+                    // pending polls must not finish it: every poll that returned Pending before
+                    // the finishing one has t.1 <= fin.0 by construction (checked via 'early')
+                    // exactly once (default config)
+                    if !h.cancelable {
+                        let want = sp.items.iter().filter(|i| i.sampled).count();
+                        if rs.len() != want {
+                            out.push(v(prop, "span-copies", format!("adapter#{}: span {:?} delivered {} times, expected {}", ai, sp.name, rs.len(), want)));
+                        }
+                    }
+                } else if sp.finish_t.is_some() && !h.cancelable {
+                    out.push(v(prop, "span-never-delivered", format!("adapter#{}: span {:?} finished at {:?} but was never delivered", ai, sp.name, sp.finish_t)));
+                }
+            }
+            // everything recorded during the final call belongs to the delivered trace
+            if let Some(fp) = a.polls.iter().find(|p| p.finishing) {
+                if let (Some(sc), false) = (fp.scope, sp.noop) {
+                    let span_delivered = ix.by_name.get(sp.name.as_str());
+                    if let Some(srecs) = span_delivered {
+                        for e in ix.exps.iter().filter(|e| matches!(e.src, Src::Local(l) if h.locals[l].scope == sc)) {
+                            // the copy of the span in this trace
+                            let Some((sbi, _)) = srecs.iter().find(|(_, r)| r.trace_id.0 == e.trace) else { continue };
+                            let got = ix.by_name.get(e.name.as_str()).map(|rs| rs.iter().filter(|(_, r)| r.trace_id.0 == e.trace).map(|(bi, _)| *bi).collect::<Vec<_>>()).unwrap_or_default();
+                            let is_unit_root = sp.is_root;
+                            if got.is_empty() {
+                                let sig = if is_unit_root { "final-call-lost:root" } else { "final-call-lost" };
+                                if !h.cancelable || is_unit_root || h.spans[e.unit].finish_t.map_or(false, |rf| rf.0 > fp.t.1) {
+                                    out.push(v(
+                                        prop,
+                                        sig,
+                                        format!("adapter#{}: local span {:?} recorded during the completing call is missing from trace {:#x} although the span itself was delivered", ai, e.name, e.trace),
+                                    ));
+                                }
+                            } else if h.cancelable && is_unit_root && !got.contains(sbi) {
+                                out.push(v(prop, "final-call-other-batch", format!("adapter#{}: local span {:?} of the completing call was delivered in another report than the root", ai, e.name)));
+                            }
+                        }
+                    }
+                }
+            }
+        }
+        // enter_on_poll: one local span per poll under a sampled local context
+        if matches!(a.kind, AdapterKind::EnterOnPoll | AdapterKind::InSpanEnterOnPoll) {
+            let mut want_parents: Vec<(u128, Option<u64>)> = Vec::new();
+            let mut npolls_recording = 0;
+            for pl in &a.polls {
+                if let Some(li) = pl.eop_local {
+                    npolls_recording += 1;
+                    for e in ix.exps.iter().filter(|e| e.src == Src::Local(li)) {
+                        want_parents.push((e.trace, ix.id_of(e.parent)));
+                    }
+                }
+            }
+            let got = ix.by_name.get(a.name.as_str()).map(|v| v.len()).unwrap_or(0);
+            let exp_n = ix.exp_by_name.get(a.name.as_str()).map(|v| v.len()).unwrap_or(0);
+            if !h.cancelable && !sched && got != exp_n {
+                out.push(v(
+                    prop,
+                    "enter_on_poll-count",
+                    format!("adapter#{} enter_on_poll({:?}): {} polls under a sampled local parent should give {} records, delivered {}", ai, a.name, npolls_recording, exp_n, got),
+                ));
+            }
+            if got > exp_n {
+                out.push(v(prop, "enter_on_poll-extra", format!("adapter#{} enter_on_poll({:?}): delivered {} records for {} recording polls", ai, a.name, got, exp_n)));
+            }
+            if let Some(rs) = ix.by_name.get(a.name.as_str()) {
+                let mut pool = want_parents.clone();
+                for (_, r) in rs {
+                    if let Some(pos) = pool.iter().position(|(t, p)| *t == r.trace_id.0 && (p.is_none() || *p == Some(r.parent_id.0))) {
+                        pool.remove(pos);
+                    } else {
+                        out.push(v(
+                            prop,
+                            "enter_on_poll-parent",
+                            format!("adapter#{} enter_on_poll({:?}): record in trace {:#x} under parent {:#x} is not under the local parent in effect at any poll", ai, a.name, r.trace_id.0, r.parent_id.0),
+                        ));
+                    }
+                }
+                // interval covers the poll: duration within [inner call, adapter call] of some poll
+                for (_, r) in rs {
+                    let ok = a.polls.iter().filter(|p| p.eop_local.is_some()).any(|p| r.duration_ns + 5 >= p.i1.saturating_sub(p.i0) && r.duration_ns <= p.b1.saturating_sub(p.b0) + 5);
+                    if !ok && a.polls.iter().all(|p| p.b1 != 0) {
+                        out.push(v(prop, "enter_on_poll-interval", format!("adapter#{} enter_on_poll({:?}): a record's duration {} ns covers no poll", ai, a.name, r.duration_ns)));
+                    }
+                }
+            }
+        }
+        let _ = (Entry::Poll, PollEnd::Pending);
+    }
+    // exactly-once / nothing invented for everything else in the default configuration
+    if !h.cancelable && !sched {
+        out.extend(c01_api(ix).into_iter().map(|mut x| {
+            x.prop = prop;
+            x.sig = format!("delivery:{}", x.sig);
+            x
+        }));
+    }
+    out.extend(c02(ix, false).into_iter().map(|mut x| {
+        x.prop = prop;
+        x.sig = format!("tree:{}", x.sig);
+        x
+    }));
     out
 }
